@@ -348,6 +348,68 @@ def _validator_helpers(ck, ex):
     return out
 
 
+READER = "_read_non_versioned_link"
+_DIRECT_READS = ("open", "read_text", "read_bytes", "FileIO")
+
+
+def pointer_reader_names(ck):
+    """Names of the data source's methods whose value is the CONTENT of a pointer file: the inventory's reader, and any method
+    that reads a pointer file itself (by the role of the path it opens)."""
+    got = getattr(ck, "_c08_reader_names", None)
+    if got is None:
+        got = {READER}
+        cls = ck.repo.cls(FSDS)
+        for m in cls.methods.values():
+            src = {A.call_attr(c) for c in A.body_calls(m.node)}
+            if src & set(_DIRECT_READS) and m.name != "exists_nonversioned" and _pointer_reads(ck, FA(ck, m)):
+                got.add(m.name)
+        ck._c08_reader_names = got
+    return got
+
+
+def _structural_pointer_read(x) -> bool:
+    """An (expanded) call that opens / reads the link path itself: open(<link path>), <link path>.read_text(), io.FileIO(<link path>)."""
+    if not (isinstance(x, ast.Call) and A.call_attr(x) in _DIRECT_READS):
+        return False
+    if A.call_attr(x) == "open":
+        mode = A.arg_or_kw(x, 0 if _is_path_method(x) else 1, "mode")
+        m = A.const_str(mode) if mode is not None else "r"
+        if m is None or any(ch in m for ch in "wax+"):
+            return False
+    if A.call_attr(x) == "FileIO" and _fileio_writes(x):
+        return False
+    p_ = open_path(x) if A.call_attr(x) in ("open", "FileIO") else (x.func.value if isinstance(x.func, ast.Attribute) else None)
+    p_ = _strip_path_wrappers(p_) if p_ is not None else None
+    return isinstance(p_, ast.Call) and A.call_attr(p_) == LINK_PATH
+
+
+def pointer_content_calls(ck, fa):
+    """The calls of `fa` whose value is (a handle on) the content of a pointer file."""
+    names = pointer_reader_names(ck)
+    direct = {id(c) for (c, _k, _e, _n) in _pointer_reads(ck, fa)} if any(A.call_attr(c) in _DIRECT_READS for c in fa.calls()) else set()
+    return [c for c in fa.calls() if fa.nodes(c) and ((A.call_attr(c) in names and not isinstance(c.func, ast.Name)) or id(c) in direct)]
+
+
+def pointer_content_deps(ck, fa):
+    """Dependency tokens that mean "derived from the content of a pointer file" in `fa`."""
+    cc = pointer_content_calls(ck, fa)
+    out = set()
+    for c in cc:
+        nm = A.call_attr(c)
+        if nm in pointer_reader_names(ck) or all(any(k is c2 for c2 in cc) for k in fa.calls(nm)):
+            out.add("call:" + nm)
+    return out
+
+
+def is_pointer_content_call(ck, fa, x) -> bool:
+    """`x` (a node of fa, or an expanded copy) is a call whose value is the content of a pointer file."""
+    if not isinstance(x, ast.Call):
+        return False
+    if A.call_attr(x) in pointer_reader_names(ck) and not isinstance(x.func, ast.Name):
+        return True
+    return any(x is c for c in pointer_content_calls(ck, fa)) or _structural_pointer_read(x)
+
+
 def check_pointer_trust(ck):
     R = "C08.R2"
     ck.rule(R, "pointers are never trusted half-written: either the pointer name is only ever the destination of an "
@@ -364,19 +426,21 @@ def check_pointer_trust(ck):
     # a helper belongs to the validity test only if nothing else uses it
     unit_quals = {ex.fi.qual} | {q for q in helpers if callers_of(q) <= ({ex.fi.qual} | set(helpers))}
     unit = [ex] + [FA(ck, helpers[q]) for q in sorted(helpers) if q in unit_quals]
-    rd = [c for u in unit for c in u.calls("_read_non_versioned_link")]
+    rd = [c for u in unit for c in pointer_content_calls(ck, u)]
     validated = False
     why = "exists_nonversioned does not read the pointer"
     if rd:
         # the value derived from the pointer content must be tested with is_file()
         isf, weak = [], []
         for u in unit:
-            isf += [c for c in u.calls("is_file") if "call:_read_non_versioned_link" in u.deps(A.call_recv(c))]
-            isf += [c for c in u.calls("isfile") if c.args and "call:_read_non_versioned_link" in u.deps(c.args[0])]
+            toks = pointer_content_deps(ck, u) or {"call:" + READER}
+            from_ptr = lambda e, u=u, toks=toks: bool(toks & set(u.deps(e)))
+            isf += [c for c in u.calls("is_file") if from_ptr(A.call_recv(c))]
+            isf += [c for c in u.calls("isfile") if c.args and from_ptr(c.args[0])]
             weak += [c for c in u.calls("exists") + u.calls("lexists") if A.call_recv(c) is not None and not (A.call_dotted(c) or "").startswith("os.path")
-                     and "call:_read_non_versioned_link" in u.deps(A.call_recv(c))]
+                     and from_ptr(A.call_recv(c))]
             weak += [c for c in u.calls("exists") + u.calls("lexists") if (A.call_dotted(c) or "").startswith("os.path") and c.args
-                     and "call:_read_non_versioned_link" in u.deps(c.args[0])]
+                     and from_ptr(c.args[0])]
         validated = bool(isf) and not weak
         why = "the designated path is only tested with exists(): an empty or truncated pointer designates Path('') = '.', which exists" if weak else \
             "the designated path is never tested to be a regular file"
@@ -1467,7 +1531,7 @@ class _ReadFails(Assume):
             nd = self.fa.cfg.node(node_id)
             plain = self._plain = getattr(self, "_plain", None) or Assume(self.fa, self.atom)
             self._rd[node_id] = nd.ast is not None and nd.kind in ("stmt", "test", "with", "for") and any(
-                isinstance(x, ast.Call) and A.call_attr(x) == "_read_non_versioned_link" and sub_live(plain, x, node_id)
+                is_pointer_content_call(self.fa.ck, self.fa, x) and sub_live(plain, x, node_id)
                 for x in A.walk_local(nd.ast))
         return self._rd[node_id]
 
@@ -1507,7 +1571,12 @@ def check_readers_validate(ck):
     ck.rule(R, "readers validate: exists_nonversioned tests the pointer and the path it contains; presence queries "
                "of the metadata source go through it", 3)
     ex = FA(ck, FSDS + ".exists_nonversioned")
-    rd = ex.calls("_read_non_versioned_link")
+    rd = pointer_content_calls(ck, ex)
+    handles = set()
+    for c_ in rd:
+        w_ = ex.pm.get(c_)
+        if isinstance(w_, ast.withitem) and isinstance(w_.optional_vars, ast.Name):
+            handles.add(w_.optional_vars.id)
     # decided on the answers: (1) no pointer file => every answer is False; (2) pointer present but the path it
     # contains fails its test => every answer is False — whether the tests are if-statements, guard clauses or
     # a conditional expression
@@ -1555,7 +1624,7 @@ def check_readers_validate(ck):
 
     def is_target(e):
         sub = subject(e)
-        return sub is not None and any(isinstance(x, ast.Call) and A.call_attr(x) == "_read_non_versioned_link" for x in ast.walk(sub))
+        return sub is not None and any(is_pointer_content_call(ck, ex, x) or (isinstance(x, ast.Name) and x.id in handles) for x in ast.walk(sub))
 
     def no_pointer(e):
         if is_ptr(e):
@@ -1571,7 +1640,7 @@ def check_readers_validate(ck):
             return False
         return None
 
-    rd = rd or [c for q in sorted(helpers) for c in FA(ck, helpers[q]).calls("_read_non_versioned_link")]
+    rd = rd or [c for q in sorted(helpers) for c in pointer_content_calls(ck, FA(ck, helpers[q]))]
     ok = answers(ex, no_pointer) is False and answers(ex, bad_target) is False and hits["ptr"] > 0 and hits["target"] > 0 and bool(rd)
     ck.ob(R, ex.key(None, "two-level"), ok, "tests the pointer, then the designated path" if ok else
           "exists_nonversioned no longer checks both the pointer and the path it designates", ex.where())
@@ -1826,6 +1895,29 @@ def _is_path_method(c):
     return isinstance(c.func, ast.Attribute) and (A.dotted(c.func.value) or "") not in ("io", "os", "builtins", "codecs")
 
 
+def _star_kw(ck, fa, call, name):
+    """The value a `**table` argument of `call` gives the keyword `name`, when the table is a literal (dict display / dict(...)) that
+    the expander can see; a table it cannot see makes the call undecidable."""
+    for k in call.keywords:
+        if k.arg is not None:
+            continue
+        try:
+            t = fa.expand(k.value, fa.nodes(call)[0])
+        except Exception:  # noqa - an expression the expander cannot place
+            t = k.value
+        if isinstance(t, ast.Dict) and all(A.const_str(x) is not None for x in t.keys if x is not None) and None not in t.keys:
+            for (kk, vv) in zip(t.keys, t.values):
+                if A.const_str(kk) == name:
+                    return vv
+        elif isinstance(t, ast.Call) and isinstance(t.func, ast.Name) and t.func.id == "dict" and not t.args and all(x.arg for x in t.keywords):
+            for x in t.keywords:
+                if x.arg == name:
+                    return x.value
+        else:
+            ck.need(False, "%s: the keyword table `**%s` of a pointer read cannot be read off the source" % (fa.qual, A.short(k.value, 30)))
+    return None
+
+
 def _pointer_reads(ck, fa):
     """Read sites of a pointer file in one function: [(call, 'text' | 'bytes', errors expr or None, encoding expr or None)]."""
     out = []
@@ -1843,12 +1935,13 @@ def _pointer_reads(ck, fa):
             if m is not None and any(ch in m for ch in "wax+"):
                 continue
             is_codecs = (A.call_dotted(c) or "").startswith("codecs.")
-            enc = A.arg_or_kw(c, 2 if (pm_ or is_codecs) else 3, "encoding")
-            err = A.arg_or_kw(c, 3 if (pm_ or is_codecs) else 4, "errors")
+            enc = A.arg_or_kw(c, 2 if (pm_ or is_codecs) else 3, "encoding") or _star_kw(ck, fa, c, "encoding")
+            err = A.arg_or_kw(c, 3 if (pm_ or is_codecs) else 4, "errors") or _star_kw(ck, fa, c, "errors")
             kind = "bytes" if (m is not None and "b" in m and not (is_codecs and enc is not None)) else "text"
             path = open_path(c)
         elif nm == "read_text" and isinstance(c.func, ast.Attribute):
-            kind, enc, err, path = "text", A.arg_or_kw(c, 0, "encoding"), A.arg_or_kw(c, 1, "errors"), c.func.value
+            kind, enc, err, path = "text", A.arg_or_kw(c, 0, "encoding") or _star_kw(ck, fa, c, "encoding"), \
+                A.arg_or_kw(c, 1, "errors") or _star_kw(ck, fa, c, "errors"), c.func.value
         elif nm == "read_bytes" and isinstance(c.func, ast.Attribute):
             kind, enc, err, path = "bytes", None, None, c.func.value
         elif nm == "FileIO" and not _fileio_writes(c):
